@@ -284,3 +284,61 @@ pub fn run(a: &Args) -> Acc {
     acc.merge(par_run(a, "c15-walk-sweep", a.n(24, 96), |a, idx, acc| walk_sweep(a, idx, maxp, acc)));
     acc
 }
+
+/// C13 part 7: unrestricted histories through the async port only (no sync twin): only panics count.
+pub fn hostile_async_case(a: &Args, idx: u64, acc: &mut Acc) {
+    let mut rng = Rng::derive(a.seed, "c13-async", idx);
+    let cfg = match rng.below(12) {
+        0 | 1 | 2 | 3 => Cfg::Mem,
+        4 | 5 => Cfg::Alt(Box::new(Cfg::Mem), "/__alt/p".into()),
+        6 | 7 | 8 => Cfg::Ovl(vec![(Cfg::Mem, "".into()), (Cfg::Mem, "/__lay1".into())]),
+        9 => Cfg::Phys,
+        _ => gen_cfg(&mut rng, 2, false, 3),
+    };
+    let slow = cfg.has_phys();
+    let universe = if slow { Universe::new(vec!["a", "ab"], 2) } else { Universe::generate(&mut rng) };
+    let sched: Vec<u8> = (0..rng.range(3, 11)).map(|_| rng.below(3) as u8).collect();
+    let ab = match guard(|| block_on(abuild(&cfg, sched.clone()))) {
+        Ok(b) => b,
+        Err(p) => {
+            acc.violate(Violation { property: "C13", signature: format!("panic|async-setup|{}|{}", p.head(), p.file()), summary: format!("building the async configuration panicked: {}", p.message), detail: J::s(cfg.desc()), order: idx });
+            return;
+        }
+    };
+    let mut d = Domain::untyped();
+    d.keep_root = false;
+    d.root_targets = true;
+    d.extreme_scripts = true;
+    d.weights.retain(|w| w.0 != "set_time" || !slow);
+    let probe = universe.paths.clone();
+    let mut trace = vec![];
+    acc.evaluations += 1;
+    let nsteps = if slow { rng.range(3, 6) } else { rng.range(8, 24) };
+    let mut snap = asnapshot(&ab.root, &probe);
+    for step in 0..nsteps {
+        let tree = snap.tree();
+        let op = gen_op(&mut rng, &d, &universe, &tree);
+        let class = tree.class(op.path());
+        let r = aexec(&ab.root, &op);
+        trace.push(format!("{} [{}] => {}", op.render(), class.name(), crate::ops::res_class(&r)));
+        acc.steps += 1;
+        let order = idx * 1000 + step as u64;
+        let detail = |trace: &Vec<String>| J::obj().set("tag", J::s("c13-async")).set("seed", J::i(a.seed)).set("history", J::i(idx)).set("config", J::s(cfg.desc())).set("poll_schedule", J::s(format!("{:?}", sched))).set("trace", J::arr(trace.iter().map(J::s)));
+        if let Err(e) = &r {
+            if let Some(p) = &e.panic {
+                acc.violate(Violation { property: "C13", signature: format!("panic|async:{}|{}|{}|{}", op.name(), class.name(), p.head(), p.file()), summary: format!("async {} panicked: {} at {}", op.render(), p.message, p.location), detail: detail(&trace), order });
+                return;
+            }
+        }
+        snap = asnapshot(&ab.root, &probe);
+        acc.fingerprints.insert(snap.fingerprint() ^ 0xA5);
+        if let Some((m, p, e)) = snap.panics().first() {
+            let pi = e.panic.clone().unwrap();
+            acc.violate(Violation { property: "C13", signature: format!("panic|async-observer:{}|{}|{}", m, pi.head(), pi.file()), summary: format!("async observer {}({:?}) panicked: {} at {}", m, p, pi.message, pi.location), detail: detail(&trace), order });
+            return;
+        }
+    }
+    if idx < 2 {
+        acc.sample(idx, J::obj().set("async_hostile_case", J::i(idx)).set("config", J::s(cfg.desc())).set("ops", J::arr(trace.iter().map(J::s))));
+    }
+}
